@@ -2,6 +2,7 @@ package rules
 
 import (
 	"fmt"
+	"go/constant"
 	"go/token"
 	"go/types"
 	"sort"
@@ -17,7 +18,14 @@ import (
 
 type altSet struct {
 	alts    [][]cons
-	precise bool // false when the budget was exceeded and dominators were used
+	binds   []map[*ssa.Phi]phiBind // per alternative: what the boolean φ-nodes passed on the way are
+	precise bool                   // false when the budget was exceeded and dominators were used
+}
+
+// phiBind: on this path the boolean φ equals val (a constant or a comparison), negated if neg.
+type phiBind struct {
+	val ssa.Value
+	neg bool
 }
 
 // maxAlts bounds the number of acyclic path classes enumerated per program
@@ -26,13 +34,52 @@ const maxAlts = 96
 
 var altBudget = maxAlts
 
+func isBoolType(t types.Type) bool {
+	b, ok := t.Underlying().(*types.Basic)
+	return ok && b.Kind() == types.Bool
+}
+
+// edgeCondOnPath: the constraints established by leaving p towards b on a path with the given
+// bindings of boolean φ-nodes (a named condition `ok := a || b` tested later is resolved to the
+// comparison that decided it on this path); feasible=false when the path cannot take the edge.
+func (lc *linCtx) edgeCondOnPath(p, b *ssa.BasicBlock, binds map[*ssa.Phi]phiBind) ([]cons, bool) {
+	if len(p.Instrs) == 0 {
+		return nil, true
+	}
+	ifi, ok := p.Instrs[len(p.Instrs)-1].(*ssa.If)
+	if !ok || p.Succs[0] == p.Succs[1] {
+		return nil, true
+	}
+	cond, truth := ifi.Cond, p.Succs[0] == b
+	for depth := 0; depth < 8; depth++ {
+		if u, ok := cond.(*ssa.UnOp); ok && u.Op == token.NOT {
+			cond, truth = u.X, !truth
+			continue
+		}
+		if phi, ok := cond.(*ssa.Phi); ok {
+			if bd, has := binds[phi]; has {
+				cond = bd.val
+				if bd.neg {
+					truth = !truth
+				}
+				continue
+			}
+		}
+		break
+	}
+	if k, ok := cond.(*ssa.Const); ok && k.Value != nil && k.Value.Kind() == constant.Bool {
+		return nil, constant.BoolVal(k.Value) == truth
+	}
+	return lc.condCons(cond, truth), true
+}
+
 func (lc *linCtx) hypAlts(b *ssa.BasicBlock) altSet {
 	memo := map[*ssa.BasicBlock]*altSet{}
 	var rec func(b *ssa.BasicBlock) altSet
 	rec = func(b *ssa.BasicBlock) altSet {
 		if m, ok := memo[b]; ok {
 			if m == nil { // cycle guard (irreducible): fall back
-				return altSet{alts: [][]cons{lc.hypAtBlock(b)}, precise: false}
+				return altSet{alts: [][]cons{lc.hypAtBlock(b)}, binds: []map[*ssa.Phi]phiBind{nil}, precise: false}
 			}
 			return *m
 		}
@@ -40,30 +87,67 @@ func (lc *linCtx) hypAlts(b *ssa.BasicBlock) altSet {
 		res := altSet{precise: true}
 		if len(b.Preds) == 0 {
 			res.alts = [][]cons{nil}
+			res.binds = []map[*ssa.Phi]phiBind{nil}
 			memo[b] = &res
 			return res
 		}
-		for _, p := range b.Preds {
+		for pi, p := range b.Preds {
 			if b.Dominates(p) { // back edge
 				continue
-			}
-			var ec []cons
-			if len(p.Instrs) > 0 {
-				if ifi, ok := p.Instrs[len(p.Instrs)-1].(*ssa.If); ok && p.Succs[0] != p.Succs[1] {
-					ec = lc.condCons(ifi.Cond, p.Succs[0] == b)
-				}
 			}
 			ps := rec(p)
 			if !ps.precise {
 				res.precise = false
 			}
-			for _, a := range ps.alts {
+			for ai, a := range ps.alts {
+				var pb map[*ssa.Phi]phiBind
+				if ai < len(ps.binds) {
+					pb = ps.binds[ai]
+				}
+				ec, feasible := lc.edgeCondOnPath(p, b, pb)
+				if !feasible {
+					continue
+				}
 				na := append(append([]cons{}, a...), ec...)
+				// boolean φ-nodes of b on this edge
+				nb := pb
+				copied := false
+				for _, in := range b.Instrs {
+					phi, ok := in.(*ssa.Phi)
+					if !ok {
+						break
+					}
+					if !isBoolType(phi.Type()) || pi >= len(phi.Edges) {
+						continue
+					}
+					e, neg := phi.Edges[pi], false
+					for {
+						u, ok := e.(*ssa.UnOp)
+						if !ok || u.Op != token.NOT {
+							break
+						}
+						e, neg = u.X, !neg
+					}
+					if q, ok := e.(*ssa.Phi); ok {
+						if bd, has := pb[q]; has {
+							e, neg = bd.val, neg != bd.neg
+						}
+					}
+					if !copied {
+						cp := map[*ssa.Phi]phiBind{}
+						for k, v := range pb {
+							cp[k] = v
+						}
+						nb, copied = cp, true
+					}
+					nb[phi] = phiBind{e, neg}
+				}
 				res.alts = append(res.alts, na)
+				res.binds = append(res.binds, nb)
 			}
 		}
 		if len(res.alts) > altBudget || len(res.alts) == 0 {
-			res = altSet{alts: [][]cons{lc.hypAtBlock(b)}, precise: false}
+			res = altSet{alts: [][]cons{lc.hypAtBlock(b)}, binds: []map[*ssa.Phi]phiBind{nil}, precise: false}
 		}
 		memo[b] = &res
 		return res
@@ -390,11 +474,11 @@ func (lc *linCtx) controlMentions(b *ssa.BasicBlock, atoms map[string]bool) bool
 // domain exactness
 
 type domainSpec struct {
-	Rule    string
-	Domain  []string          // constraints over roles that every accepted input satisfies
-	Roles   func(*linCtx) roleMap
-	Extra   map[string]string // extra role definitions: name -> "param:x" etc. (unused)
-	NoOver  bool              // skip the over-rejection direction
+	Rule   string
+	Domain []string // constraints over roles that every accepted input satisfies
+	Roles  func(*linCtx) roleMap
+	Extra  map[string]string // extra role definitions: name -> "param:x" etc. (unused)
+	NoOver bool              // skip the over-rejection direction
 }
 
 // checkDomain: (a) every success return is reached only inside the domain;
